@@ -674,7 +674,8 @@ META = {
         "infinitely often in finite time; the claim is: K step completions, and per jump one search of at most "
         "ceil(log2(dt))+2 sweeps in the T1 regime (t_{k+1}-t_k < 2 t_k)",
         "search length in the first step of a grid (t_0 = 0) and in steps with t_{k+1}-t_k >= 2 t_k: only the bounded unrolling",
-        "unrolling bound: K = 2, dt in {0.5, 3} (thorough also symbolic dt in (0,4]), <= 1 jump, <= 4 sweeps (thorough 5)",
+        "unrolling bound: K = 2, <= 1 jump; quick: dt = 0.5 with <= 4 sweeps and dt = 3 with <= 3 sweeps; thorough: <= 5 sweeps "
+        "for dt in {0.5, 3} and <= 4 sweeps for symbolic dt in (0,4]",
         "more than 2 qubits (progress() then runs several partial sweeps before sweep_complete(); the sweep logic is C02's)",
         "floating-point rounding (exact reals); math.isclose is read over the reals",
         "the numerical evolution, the jump operator choice, baths and Hamiltonian construction (stubbed)",
@@ -705,7 +706,7 @@ def cases(tier):
                 )
             )
     quick = tier == "quick"
-    for ms, dts in ([(4, [0.5]), (4, [3.0])] if quick else [(5, [0.5]), (5, [3.0]), (4, None)]):
+    for ms, dts in ([(4, [0.5]), (3, [3.0])] if quick else [(5, [0.5]), (5, [3.0]), (4, None)]):
         out.append(
             Case(
                 name=f"unroll_K2_sweeps{ms}_{'dtsym' if dts is None else 'dt' + str(dts[0])}",
